@@ -218,7 +218,15 @@ func runC04(in *Sx) *Sx {
 				fields = append(fields, sf)
 			}
 			st := reflect.New(reflect.StructOf(fields))
-			err := injs[a[0].Int()].Apply(st.Interface())
+			target := st
+			if len(a) > 2 { // (deep k): the struct is handed over behind k more pointers
+				for k := a[2].Args()[0].Int(); k > 0; k-- {
+					pp := reflect.New(target.Type())
+					pp.Elem().Set(target)
+					target = pp
+				}
+			}
+			err := injs[a[0].Int()].Apply(target.Interface())
 			var sets []*Sx
 			for i := range fields {
 				fv := st.Elem().Field(i)
@@ -409,7 +417,11 @@ func genC04(rng *rand.Rand, n int, tier string, emit func(*Sx)) {
 				for j := 1 + rng.Intn(4); j > 0; j-- {
 					fs = append(fs, T("f", I(anyType()), I([]int{1, 1, 0, 2}[rng.Intn(4)])))
 				}
-				ops = append(ops, T("apply", I(inj), T("fields", fs...)))
+				if rng.Intn(4) == 0 {
+					ops = append(ops, T("apply", I(inj), T("fields", fs...), T("deep", I(1+rng.Intn(2)))))
+				} else {
+					ops = append(ops, T("apply", I(inj), T("fields", fs...)))
+				}
 			case nilCase:
 				setNil(inj)
 			default:
